@@ -23,6 +23,14 @@ CLAIMS = {
              'assignment, set(), get(), exists() and select(**kw) pass through attr.validate.',
         note='Ints mathematical, floats IEEE binary64 (bounds not NaN), Decimals exact reals (Decimal(d)==d stubbed), strings with uninterpreted length and '
              'strip (len(strip(s)) <= len(s)); max_len >= 1; py_check is an arbitrary boolean effect. Type coercions of ill-typed values (str -> int, __index__) not covered.'),
+    'C18': dict(
+        text='Proof by exhaustive path enumeration (every combination of commit / rollback / release / user predicate / body returning or raising) of '
+             'DBSessionContextManager._commit_or_rollback and __exit__ (loop-free): commit occurs iff the body finished or raised an allowed exception, '
+             'exactly at the outermost exit, otherwise rollback and propagation, session-local state cleared on every exit; caller-side precondition of '
+             '__exit__ for the Flask integration; Bottle plugin. The retry loop (new_func), nested decorated calls and the generator wrapper are checked the '
+             'same way but BOUNDED (retry <= 2/3, depth 2, <= 2 resumptions) and counted separately, never as proved.',
+        note='Obligations are ground after path enumeration (decided by evaluating the ghost trace of effect stubs; no solver). Trusted: effect stubs model '
+             'commit()/rollback()/cache.release()/predicates/body as return-or-raise with no other access to session-local state; stub flask/bottle modules.'),
 }
 
 _NOT_BUILT = 'within reach of the technique per DESIGN.md, check not built yet'
